@@ -66,6 +66,16 @@ def corpus(rng, n):
                 keys = sorted(c["truth"]["tracks"])
                 want = [k.split("/") for k in rng.sample(keys, max(1, len(keys) // 2))]
             texts.append({"text": c["text"], "want": want, "res": c["truth"]["resolution"], "kind": "valid"})
+        elif r == 3 and i % 12 == 9:
+            # long tempo maps (>= 32 tempo events, different ticks each time): exercises any lookup structure kept per
+            # tempo map; charts are dropped after each parse, so object addresses get reused across the history
+            c = gen.gen_chart(rng, "realistic", n_tracks=1, n_groups=rng.choice([10, 40]), n_globals=rng.choice([4, 12]),
+                              n_tempos=rng.choice([33, 48, 80]))
+            texts.append({"text": c["text"], "want": None, "res": c["truth"]["resolution"], "kind": "valid"})
+            # a sibling with the same number of tempo events at other ticks
+            c2 = gen.gen_chart(rng, "realistic", n_tracks=1, n_groups=10, n_globals=6, n_tempos=len(c["truth"]["tempos"]),
+                               res=c["truth"]["resolution"])
+            texts.append({"text": c2["text"], "want": None, "res": c2["truth"]["resolution"], "kind": "valid"})
         elif r == 3:
             # > 128 distinct sustain tuples in one chart: forces evictions in the default-size memo tables
             res = rng.choice([192, 480, 100, 7])
